@@ -1225,10 +1225,10 @@ class EdgeQLSourceGenerator(codegen.SourceGenerator):
         self._write_keywords('CREATE EXTENSION PACKAGE')
         self.write(' ')
         self.write(ident_to_str(node.name.name))
-        self._write_keywords(' MIGRATION FROM ')
+        self._write_keywords(' MIGRATION FROM')
         self._write_keywords(' VERSION ')
         self.visit(node.from_version)
-        self._write_keywords(' TO ')
+        self._write_keywords(' TO VERSION ')
         self.visit(node.to_version)
 
         if node.body.text:
@@ -1247,10 +1247,10 @@ class EdgeQLSourceGenerator(codegen.SourceGenerator):
         self._write_keywords('DROP EXTENSION PACKAGE')
         self.write(' ')
         self.write(ident_to_str(node.name.name))
-        self._write_keywords(' MIGRATION FROM ')
+        self._write_keywords(' MIGRATION FROM')
         self._write_keywords(' VERSION ')
         self.visit(node.from_version)
-        self._write_keywords(' TO ')
+        self._write_keywords(' TO VERSION ')
         self.visit(node.to_version)
 
     def visit_CreateExtension(
